@@ -4,7 +4,7 @@
    that specification for every list of well-formed inputs of one resolution, in any block order).
    The implementation is compared with both on every run. *)
 From Coq Require Import QArith.
-From HS Require Import Prelude Cov Map Spec Ops Spec2 Params MapProofs MultiProofs MultiRefine Exec Exec2.
+From HS Require Import Prelude Cov Map Spec Ops Spec2 Params MapProofs UpdateProofs HistoryProofs MultiProofs MultiRefine Exec Exec2 ExecProofs.
 Open Scope Z_scope.
 
 Section C06.
@@ -97,6 +97,30 @@ Example C06_hypotheses_satisfiable :
   end.
 Proof. vm_compute. repeat split; reflexivity. Qed.
 
+(* C06: two maps filled in different orders are admissible inputs of the refinement theorem *)
+Example C06_refinement_hypotheses_satisfiable :
+  let k := mkk 0 (-5 # 1) 1 in
+  let e := make_empty cellv 12 4 [(-5 # 1)%Q] None in
+  let a := x_update k e URepl [(45, [(7 # 1)%Q]); (3, [(-9 # 1)%Q])] false in
+  let b := x_update k e URepl [(3, [(1 # 1)%Q]); (45, [(-2 # 1)%Q]); (9, [(1 # 1)%Q])] false in
+  okmap (xparams k) 12 4 (k_valid k, a) /\ okmap (xparams k) 12 4 (k_valid k, b) /\
+  [(k_valid k, a); (k_valid k, b)] <> [].
+Proof.
+  cbv zeta.
+  assert (We : wf (xparams (mkk 0 (-5 # 1) 1)) (make_empty cellv 12 4 [(-5 # 1)%Q] None))
+    by (apply (make_empty_wf (xparams (mkk 0 (-5 # 1) 1))); [lia|lia|reflexivity|exact I]).
+  split; [|split; [|discriminate]].
+  - split; [|split; vm_compute; reflexivity].
+    change (wf (xparams (mkk 0 (-5 # 1) 1)) (x_update (mkk 0 (-5 # 1) 1) (make_empty cellv 12 4 [(-5 # 1)%Q] None) URepl [(45, [(7 # 1)%Q]); (3, [(-9 # 1)%Q])] false)).
+    apply x_update_wf; [exact We|].
+    intros pv [<-|[<-|[]]]; (split; [apply Z.leb_le|apply Z.ltb_lt]; vm_compute; reflexivity).
+  - split; [|split; vm_compute; reflexivity].
+    change (wf (xparams (mkk 0 (-5 # 1) 1)) (x_update (mkk 0 (-5 # 1) 1) (make_empty cellv 12 4 [(-5 # 1)%Q] None) URepl [(3, [(1 # 1)%Q]); (45, [(-2 # 1)%Q]); (9, [(1 # 1)%Q])] false)).
+    apply x_update_wf; [exact We|].
+    intros pv [<-|[<-|[<-|[]]]]; (split; [apply Z.leb_le|apply Z.ltb_lt]; vm_compute; reflexivity).
+Qed.
+
+
 Print Assumptions C06_union_folds_the_valid_inputs.
 Print Assumptions C06_union_invalid_where_no_input_is_valid.
 Print Assumptions C06_intersection_folds_all_inputs.
@@ -112,3 +136,4 @@ Print Assumptions C06_max_seed_is_identity.
 Print Assumptions C06_min_seed_is_identity.
 Print Assumptions C06_max_zero_seed_refuted.
 Print Assumptions C06_hypotheses_satisfiable.
+Print Assumptions C06_refinement_hypotheses_satisfiable.
